@@ -186,7 +186,7 @@ class Harness:
     """A running `harness replay` process fed through its stdin."""
 
     def __init__(self, work, prop, systems, opts="", seed=1, thorough=False, small=False, keys="plain",
-                 reopen=False, workers=16, tag="r", addr=""):
+                 reopen=False, workers=16, tag="r", addr="", memtrace=None):
         self.out = work.path("sum.%s.json" % tag)
         cmd = [HARNESS, "replay", "--property", prop, "--systems", ",".join(systems), "--opts", opts,
                "--seed", str(seed), "--keys", keys, "--workers", str(workers), "--out", self.out,
@@ -201,6 +201,8 @@ class Harness:
         if addr:
             cmd += ["--addr", addr]
         env = dict(os.environ)
+        if memtrace:
+            env["VERIF_S3MEM_TRACE"] = memtrace     # backend/s3mem/verif_trace.go: state events of every s3mem instance
         self.p = subprocess.Popen(cmd, stdin=subprocess.PIPE, stderr=subprocess.PIPE, env=env, bufsize=1 << 20)
         self.err = []
         self.t = threading.Thread(target=self._drain, daemon=True)
@@ -331,7 +333,7 @@ def findings_descriptions():
 
 def tour_stage(rep, work, name, module, constants, systems, opts="", keys="plain", thorough=False, small=False,
                reopen=False, invariants=(), properties=(), timeout=1800, heap="4g", view="View", emit="Emit",
-               simulate=None, hworkers=16, tlc_workers=1, addr=""):
+               simulate=None, hworkers=16, tlc_workers=1, addr="", memtrace=False):
     """One TLC run whose emitted tours are replayed on `systems`.  `emit` names
     the ACTION_CONSTRAINT that prints tours (transition tours); modules that
     enumerate cases as initial states print from an invariant instead
@@ -339,8 +341,11 @@ def tour_stage(rep, work, name, module, constants, systems, opts="", keys="plain
     cfgfile = "%s.%s.cfg" % (module, re.sub(r"\W", "_", name))
     write_cfg(work.path(cfgfile), constants, view=view, action_constraint=emit, invariants=invariants,
               properties=properties)
+    mtdir = None
+    if memtrace and "mem" in systems:
+        mtdir = tempfile.mkdtemp(prefix="memtrace.", dir=work.dir)
     h = Harness(work, rep.prop, systems, opts=opts, seed=rep.seed, thorough=thorough, small=small, keys=keys,
-                reopen=reopen, workers=hworkers, tag=re.sub(r"\W", "_", name), addr=addr)
+                reopen=reopen, workers=hworkers, tag=re.sub(r"\W", "_", name), addr=addr, memtrace=mtdir)
     try:
         res = run_tlc(work, module + ".tla", cfgfile, sink=h.stdin, workers=tlc_workers, timeout=timeout, heap=heap,
                       simulate=simulate)
@@ -357,7 +362,123 @@ def tour_stage(rep, work, name, module, constants, systems, opts="", keys="plain
     log("stage %-28s tlc %d/%d states %.0fs; %d tours x %s -> %d steps, %d mismatches, known %s" % (
         name, res.distinct, res.generated, res.wall, summ["tours"], ",".join(systems), summ["steps"],
         len(summ.get("mismatches") or []), summ.get("known")))
+    if mtdir:
+        memtrace_validate(rep, work, name + " (s3mem state trace)", mtdir)
     return res, summ
+
+
+# ---------------------------------------------------------------------------
+# state traces recorded inside backend/s3mem (hooks, build tag verif) validated by TraceMem.tla
+
+def memtrace_validate(rep, work, name, tracedir, piece=60000):
+    """Groups the events by backend instance, orders each group by its sequence number (taken under the
+    backend's lock), and lets TLC check event by event that the logged state is an outcome S3!Step admits."""
+    import collections, hashlib
+    groups = collections.defaultdict(list)
+    for fn in sorted(os.listdir(tracedir)):
+        if not fn.endswith(".ndjson"):
+            continue
+        with open(os.path.join(tracedir, fn)) as f:
+            for line in f:
+                line = line.strip()
+                if line:
+                    e = json.loads(line)
+                    groups[(fn, e["i"])].append(e)
+    reset = {"op": "reset", "b": "", "k": [], "vids": [], "exists": False, "ver": "None", "stack": []}
+    insts = []
+    for key in sorted(groups):
+        es = sorted(groups[key], key=lambda e: e["n"])
+        if [e["n"] for e in es] != list(range(1, len(es) + 1)):
+            raise Infra("state trace of instance %s has gaps in its sequence numbers" % (key,))
+        insts.append(es)
+    nev = sum(len(x) for x in insts)
+    vr = TLCResult()
+    rejected = []
+    cfg = "TraceMem.cfg"
+    write_cfg(work.path(cfg), {}, constraint="HighWater", postcondition="Accepted")
+    pending = list(insts)
+    while pending:
+        chunk, size = [], 0
+        while pending and (size == 0 or size + len(pending[0]) + 1 <= piece):
+            x = pending.pop(0)
+            chunk.append(x)
+            size += len(x) + 1
+        tf = work.path("memtrace.%d.ndjson" % len(pending))
+        bounds = []
+        with open(tf, "w") as f:
+            n = 0
+            for es in chunk:
+                f.write(json.dumps(reset) + "\n")
+                n += 1
+                bounds.append((n, es))
+                for e in es:
+                    f.write(json.dumps(e, separators=(",", ":")) + "\n")
+                n += len(es)
+        while True:
+            ok, at, res = validate_trace(work, "TraceMem", tf, cfgname=cfg)
+            vr.distinct += res.distinct
+            vr.generated += res.generated
+            if ok:
+                break
+            # the instance holding the first event that could not be explained; validate the rest without it
+            bad = None
+            for first, es in bounds:
+                if first <= at - 1 <= first + len(es):
+                    bad = (first, es)
+            if bad is None:
+                raise Infra("TraceMem rejected event %s which belongs to no instance" % at)
+            rejected.append((bad[1], at - bad[0] - 1))
+            bounds = [b for b in bounds if b[1] is not bad[1]]
+            if not bounds:
+                break
+            with open(tf, "w") as f:
+                n = 0
+                nb = []
+                for first, es in bounds:
+                    f.write(json.dumps(reset) + "\n")
+                    n += 1
+                    nb.append((n, es))
+                    for e in es:
+                        f.write(json.dumps(e, separators=(",", ":")) + "\n")
+                    n += len(es)
+                bounds = nb
+    rep.add_tlc(name, vr)
+    rep.traces += len(insts) - len(rejected)
+    rep.stages.append({"stage": name, "s3mem_instances": len(insts), "state_events": nev, "rejected": len(rejected)})
+    if len(rep.samples) < 3 and insts:
+        rep.samples.append(max(insts, key=len)[:4])
+    for es, idx in rejected:
+        idx = max(0, min(idx, len(es) - 1))
+        e = es[idx]
+        desc = ("s3mem state trace: after %s on %s/%s (event %d of its backend instance) the logged state -- bucket exists=%s "
+                "versioning=%s stack=%s -- is not an outcome the specification admits" % (
+                    e["op"], e["b"], bytes(e["k"]).decode("utf-8", "replace"), idx + 1, e["exists"], e["ver"],
+                    json.dumps(e["stack"])[:400]))
+        fid = classify(rep.prop, "mem", "State:" + e["op"], desc)
+        if fid:
+            rep.known[fid] = rep.known.get(fid, 0) + 1
+            continue
+        os.makedirs(os.path.join(OUT, "replays"), exist_ok=True)
+        body = "".join(json.dumps(x) + "\n" for x in [reset] + es[:idx + 1])
+        rp = os.path.join(OUT, "replays", "%s-memtrace-%s.ndjson" % (rep.prop, hashlib.sha1(body.encode()).hexdigest()[:16]))
+        with open(rp, "w") as f:
+            f.write(body)
+        rep.violations.append((rp, desc))
+    log("stage %-28s %d s3mem instances / %d state events validated by TraceMem: rejected %d" % (name, len(insts), nev, len(rejected)))
+
+
+def repotests_stage(rep, work, name):
+    """The repository's own test-suite, run with the s3mem hooks on: every test that touches the in-memory backend
+    becomes a conformance test whose oracle is the specification."""
+    mtdir = tempfile.mkdtemp(prefix="memtrace.", dir=work.dir)
+    env = dict(GOENV, VERIF_S3MEM_TRACE=mtdir)
+    p = subprocess.run(["go", "test", "-tags", "verif", "-vet=off", "-count=1", "./..."], cwd=REPO, env=env,
+                       capture_output=True, text=True, timeout=1500)
+    if p.returncode != 0:
+        # (a failing test of the repository is not this check's verdict; the traces recorded so far still are)
+        log("stage %-28s the repository's tests did not all pass with the hooks on (rc=%d)" % (name, p.returncode))
+        rep.assumptions.append("go test -tags verif ./... exited with %d while recording" % p.returncode)
+    memtrace_validate(rep, work, name, mtdir)
 
 
 # ---------------------------------------------------------------------------
@@ -770,6 +891,12 @@ def conc_stage(rep, work, name, systems, clients, runs, ops, keys, gated, race=F
         cmd = [binary, "kill", "--bin", build_server_binary(), "--kinds", ",".join(systems), "--seed", str(rep.seed),
                "--runs", str(runs), "--rounds", str(kill_rounds), "--trace", trace, "--out", out]
     env = dict(os.environ, GORACE="halt_on_error=0 history_size=3")
+    mtdir = None
+    if "mem" in systems and not kill_rounds:
+        # the in-memory backend also logs, under its lock, the state after every change: a second, linear-time,
+        # decision of the same runs (the order of the linearization points is recorded, not searched)
+        mtdir = tempfile.mkdtemp(prefix="memtrace.", dir=work.dir)
+        env["VERIF_S3MEM_TRACE"] = mtdir
     p = subprocess.run(cmd, capture_output=True, text=True, env=env, timeout=timeout)
     err = p.stderr
     os.makedirs(os.path.join(OUT, "replays"), exist_ok=True)
@@ -808,6 +935,8 @@ def conc_stage(rep, work, name, systems, clients, runs, ops, keys, gated, race=F
             with open(rp, "w") as f:
                 f.write(pr)
             rep.violations.append((rp, pr))
+    if mtdir:
+        memtrace_validate(rep, work, name + " (s3mem state trace)", mtdir)
     cur = trace
     rejected, inconclusive = [], 0
     vstates = vtrans = 0
